@@ -19,10 +19,11 @@ from typing import Any, Dict, List, Optional, Tuple
 
 import sympy as sp
 
-from ..algebra import SymEval, Untranslatable, dagger, is_zero, residual_text, to_matrix, normal_form
+from ..algebra import HBAR, SymEval, Untranslatable, dagger, is_zero, residual_text, to_matrix, normal_form
 from ..index import ClassInfo, FuncInfo, get_index, dotted, norm, calls_in
 from ..registry import get_registry
 from ..report import Context, AnalysisError
+from ..texmatrix import TexUnreadable, documented_matrices, read_matrix
 
 LEVEL = "proof"
 GATES = "piquasso.instructions.gates"
@@ -91,6 +92,21 @@ def run(ctx: Context) -> None:
             continue
         n_closed += 1
         blocks[c.name] = {"P": P, "A": A, "syms": syms}
+        # ladder operators are dimensionless: the blocks may not depend on config.hbar
+        for nm, blk, meth in (("P", P, "_get_passive_block"), ("A", A, "_get_active_block")):
+            if blk is None:
+                continue
+            free = HBAR not in blk.free_symbols
+            ctx.obligation("C07a", key + f"|{nm} independent of hbar", free, where)
+            if not free:
+                ctx.violation("C07a", key + f"|{nm}-depends-on-hbar", c.file, c.find_method(meth).line,
+                              f"{c.name}.{meth} depends on config.hbar: the ladder-operator transformation a -> P a + A a^dagger is "
+                              f"dimensionless (x and p both scale with sqrt(hbar)), so the documented gate is the same matrix for every hbar; "
+                              f"block = {blk}", str(blk)[:120])
+        if HBAR in P.free_symbols or (A is not None and HBAR in A.free_symbols):
+            P = P.subs(HBAR, 2)
+            A = A.subs(HBAR, 2) if A is not None else None
+            blocks[c.name] = {"P": P, "A": A, "syms": syms}
         n = P.shape[0]
         I = sp.eye(n)
         if not is_active:
@@ -175,6 +191,35 @@ def run(ctx: Context) -> None:
     lhs = cform(s2["P"], s2["A"])
     rhs4 = cform(Bp, Z) * cform(Pm, Am) * cform(Bm, Z)
     oblige("S2(z) = B(pi/4,0)[S(-z) x S(z)]B(-pi/4,0)", lhs - rhs4, "Squeezing2", "S_ij(z) == B_ij(pi/4, 0) [S_i(-z) (x) S_j(z)] B_ij(-pi/4, 0)")
+    # the matrices printed in the class docstrings, S_(c) = [[P, A], [conj A, conj P]]  (Eq. linearity)
+    n_doc = 0
+    for cname, b in sorted(blocks.items()):
+        c = idx.find_class(GATES, cname)
+        doc = ast.get_docstring(c.node) or ""
+        for lhs, pre, body in documented_matrices(doc):
+            if lhs.replace(" ", "") != "S_{(c)}":
+                continue
+
+            def symbol(name, _b=b, _c=cname):
+                for p_, sy in _b["syms"].items():
+                    base = p_.rstrip("_")
+                    if name in (p_, base, "phi_" + base):
+                        return sy
+                raise TexUnreadable(f"tex: symbol `{name}` in the docstring of {_c} names no constructor parameter")
+            try:
+                S_doc = read_matrix(pre, body, symbol)
+            except TexUnreadable as e:
+                ctx.error(f"C07b: documented matrix of {cname}: {e}")
+                continue
+            P_, A_ = b["P"], b["A"] if b["A"] is not None else sp.zeros(*b["P"].shape)
+            S_code = cform(P_, A_)
+            if S_doc.shape != S_code.shape:
+                ctx.error(f"C07b: documented matrix of {cname} is {S_doc.shape}, the blocks give {S_code.shape}")
+                continue
+            n_doc += 1
+            oblige("S_(c) of the docstring = [[P, A], [conj A, conj P]]", S_code - S_doc, cname,
+                   f"the matrix S_(c) printed in the docstring of {cname} equals the one assembled from its blocks")
+    ctx.require_floor("docstring matrices compared with the blocks", n_doc, 7)
     # displacement variants: computed params
     for cname, key, want in (("PositionDisplacement", "x", (None, sp.Integer(0))), ("MomentumDisplacement", "p", (None, sp.pi / 2))):
         c = idx.find_class(GATES, cname)
